@@ -431,6 +431,9 @@ func c07Blocks(r *core.Run, p *core.Program) {
 	})
 	blockdbFlushDrains(r, p, rule)
 	c16ResumePosition(r, p, rule)
+	if wo := p.Func("lib/chain.(*BlockDB).writeOne"); wo != nil {
+		c16RecordedCurrent(r, p, rule, wo)
+	}
 	lb := p.Func("lib/chain.(*BlockDB).LoadBlockIndex")
 	if lb != nil {
 		c16RecordCounted(r, p, rule, lb)
